@@ -8,7 +8,7 @@ from .common import VH, ToolError, clean_prefix, log, read_ndjson, vh, workdir, 
 NSHARDS = 16
 
 
-def run_rows(ctx, name, recs, texts_path, mode, excl="", violation=True, shards=NSHARDS):
+def run_rows(ctx, name, recs, texts_path, mode, excl="", violation=True, shards=NSHARDS, lemma=False):
     """recs: list of {id, ast, ng}.  Returns dict(stats=..., rejects=[...], cerr=[...])."""
     d = workdir(ctx.prop)
     asts = os.path.join(d, name + ".asts.ndjson")
@@ -16,13 +16,16 @@ def run_rows(ctx, name, recs, texts_path, mode, excl="", violation=True, shards=
     prefix = os.path.join(d, name + ".rows")
     clean_prefix(prefix)
     shards = max(1, min(shards, (len(recs) + 39) // 40))
+    import time
+    t0 = time.time()
     vh(["rows", "--asts", asts, "--texts", texts_path, "--out", prefix, "--shards", shards])
-    envs = [dict(VH_RECS="%s.%d.ndjson" % (prefix, i), VH_TEXTS=texts_path, VH_MODE=mode, VH_EXCL=excl) for i in range(shards)]
+    envs = [dict(VH_RECS="%s.%d.ndjson" % (prefix, i), VH_TEXTS=texts_path, VH_MODE=mode, VH_EXCL=excl, VH_LEMMA="1" if lemma else "0") for i in range(shards)]
     rs = tlc.run_shards("TraceRows", envs)
     tlc.require_clean(rs, "TraceRows(%s)" % name)
+    log("rows %s: %d records, %.1fs (slowest shard %.1fs)" % (name, len(recs), time.time() - t0, max(r.wall for r in rs)))
     ctx.add_tlc(rs)
     stats = {}
-    rejects, cerr = [], []
+    rejects, cerr, lemmafail = [], [], []
     for r in rs:
         st = r.tagged("STATS")
         if len(st) != 1:
@@ -31,6 +34,7 @@ def run_rows(ctx, name, recs, texts_path, mode, excl="", violation=True, shards=
             stats[k] = stats.get(k, 0) + v
         rejects += r.tagged("REJECT")
         cerr += r.tagged("CERR")
+        lemmafail += r.tagged("LEMMAFAIL")
     stats["cells_per_pattern"] = stats["cells_per_pattern"] // shards
     if stats["records"] != len(recs):
         raise ToolError("TraceRows(%s): %d records validated, %d expected" % (name, stats["records"], len(recs)))
@@ -40,13 +44,16 @@ def run_rows(ctx, name, recs, texts_path, mode, excl="", violation=True, shards=
     ctx.evaluations += (stats["ok"] + stats["rejected"]) * stats["cells_per_pattern"]
     ctx.nontrivial += stats["matching_cells"]
     ctx.cov.setdefault("spaces", {})[name] = dict(stats, unexpected_compile_errors=len(odd), texts=os.path.basename(texts_path), mode=mode)
+    if lemmafail:
+        # the metamorphic law is a theorem of RefSem; if TLC refutes it the SPECIFICATION is wrong
+        raise ToolError("spec-level lemma Search(injected) = Search(base) refuted by TLC for %s" % lemmafail[0]["pat"])
     if odd:
         ctx.note("%s: %d patterns of the space did not compile, e.g. %s (%s)" % (name, len(odd), odd[0]["pat"], odd[0]["ek"]))
     if violation:
         for j in rejects:
             ctx.violation("pattern %s: cell %s expected by RefSem but not produced; cell %s produced but not allowed (row = [text#, byte offset, status, caps...])"
                           % (j["pat"], j["expected_not_logged"], j["logged_not_expected"]),
-                          dict(kind="rows", space=name, mode=mode, texts=texts_path, ast=j["ast"], ng=j["ng"], pat=j["pat"],
+                          dict(kind="rows", space=name, mode=mode, texts=texts_path, ast=j["ast"], base=j.get("base"), ng=j["ng"], pat=j["pat"],
                                expected_not_logged=j["expected_not_logged"], logged_not_expected=j["logged_not_expected"]))
     # a few samples: pattern + number of matching cells, straight from the harness records
     try:
